@@ -30,16 +30,17 @@ Inductive front_res :=
 
 Definition dummy_tok : token := mk_tok EmptyString [] 0 0 0.
 
-Definition front (text : list N) : front_res :=
-  let '(toks, e) := scan text in
+(* everything after the scanner is a function of the token KINDS and LEXEMES only (positions are not consulted) *)
+Definition parse_tokens (kl : list (string * list N)) (e : ending) : front_res :=
   match e with
   | EndEOF =>
-    let ks := map (fun t => index_of (t_kind t) ebnf_terminals 0%N) toks in
+    let ks := map (fun t => index_of (fst t) ebnf_terminals 0%N) kl in
+    let lexs := map (fun t => str_of_codes (snd t)) kl in
     let '(tr, o) := LR.run ebnf_grammar ebnf_table ebnf_eof ebnf_err_state ks EndOfInput (N.to_nat 200000) init in
     match o with
     | OAccept =>
       match build ebnf_grammar ks tr with
-      | [t] => match spec_of (fun i => str_of_codes (t_lexeme (nth i toks dummy_tok))) t with
+      | [t] => match spec_of (fun i => nth i lexs EmptyString) t with
                | Some (name, ds) => FSpec name ds
                | None => FInternal
                end
@@ -50,6 +51,18 @@ Definition front (text : list N) : front_res :=
     end
   | _ => FLexError
   end.
+
+Definition kinds_and_lexemes (toks : list token) : list (string * list N) := map (fun t => (t_kind t, t_lexeme t)) toks.
+
+Definition front (text : list N) : front_res :=
+  parse_tokens (kinds_and_lexemes (fst (scan text))) (snd (scan text)).
+
+(* two texts with the same sequence of tokens (kind and lexeme; whatever the blanks, comments, line breaks and padding
+   between them, whatever their positions) and the same ending give the same result *)
+Theorem front_depends_only_on_tokens t1 t2 :
+  kinds_and_lexemes (fst (scan t1)) = kinds_and_lexemes (fst (scan t2)) -> snd (scan t1) = snd (scan t2) ->
+  front t1 = front t2.
+Proof. intros H1 H2. unfold front. rewrite H1, H2. reflexivity. Qed.
 
 Definition translate_spec (ds : list decl) : st := translate terminal_names predefs_s ds.
 
